@@ -51,7 +51,7 @@ def gen_outcomes(rng, rcpts, L, bias):
                 vd = rng.choice(bias.get('verdicts',
                                          ['ok', 'none', 'temp', 'temp',
                                           'perm']))
-                var = rng.choice([0, 0, 1, 2])
+                var = rng.choice([0, 0, 1, 2, 5])
                 per[r] = [vd, var]
                 if vd == 'temp':
                     nxt.append(r)
@@ -68,7 +68,7 @@ def gen_outcomes(rng, rcpts, L, bias):
         else:
             t = rng.choice(bias.get('whole', ['none', 'reply', 'temp', 'temp',
                                               'perm', 'other']))
-            out.append({'t': t, 'v': rng.choice([0, 1]), 'lat': lat})
+            out.append({'t': t, 'v': rng.choice([0, 1, 5]), 'lat': lat})
             if t in ('none', 'reply', 'perm'):
                 outstanding = []
     return out
